@@ -342,6 +342,9 @@ func c02RunOne(record []byte, push bool, prefix []int, mapOrders bool) (*vs.Exec
 				cls = append(cls, "call:"+methodClass(m.Method))
 				if r == nil {
 					fail("C02.R1", fmt.Sprintf("call member %d (id %s) got no response (output %s)", mi, m.EchoID, rawOuts(outs)))
+					if known && !builtin && !m.DupID {
+						wantHandlers++
+					}
 					continue
 				}
 				if !jsonEqual([]byte(r.ID()), []byte(m.EchoID)) {
@@ -603,6 +606,37 @@ func c02Envelopes(maxLen int, first byte, push bool) *Scenario {
 	}
 }
 
+// c02Exotic: method names and string ids containing every code point up to U+00FF (escaped),
+// raw DEL, line separators and astral non-printable runes: the error replies quote these strings
+// ("data"), so each must still produce its well-formed reply.
+func c02Exotic(push bool) *Scenario {
+	return &Scenario{
+		Name:   fmt.Sprintf("exotic strings: unknown-method and duplicate-id members with every code point <= U+00FF, DEL, U+2028, astral runes push=%v", push),
+		Params: map[string]any{"push": push, "shapes": []string{"call", "notification", "[call, valid call]", "[two calls sharing the string id]"}},
+		Seq: func(r *SeqRun) {
+			var chars []string
+			for cp := 1; cp <= 0xff; cp++ {
+				chars = append(chars, fmt.Sprintf("\\u%04x", cp))
+			}
+			chars = append(chars, "\x7f", "\u2028", "\\u2028", "\\udb40\\udc01", "\U000e0001", "\\ufffe", "\u0080", "\\\"", "\\\\", "\\/")
+			for _, ch := range chars {
+				if r.Expired() {
+					return
+				}
+				call := `{"jsonrpc":"2.0","id":1,"method":"no` + ch + `such"}`
+				c02Explore(r, []byte(call), push, false)
+				c02Explore(r, []byte(`{"jsonrpc":"2.0","method":"no`+ch+`such"}`), push, false)
+				c02Explore(r, []byte(`[`+call+`,{"jsonrpc":"2.0","id":2,"method":"ok"}]`), push, false)
+				c02Explore(r, []byte(`{"jsonrpc":"2.0","id":3,"method":"rpc.`+ch+`"}`), push, false)
+				dup := `{"jsonrpc":"2.0","id":"d` + ch + `","method":"ok"}`
+				c02Explore(r, []byte(`[`+dup+`,`+dup+`]`), push, false)
+				c02Explore(r, []byte(dup), push, false)
+			}
+			r.Sample(map[string]any{"record": `{"jsonrpc":"2.0","id":1,"method":"no\u001bsuch"}`, "push": push})
+		},
+	}
+}
+
 func c02Scenarios(tier string) []*Scenario {
 	var out []*Scenario
 	q := tier == "quick"
@@ -620,7 +654,7 @@ func c02Scenarios(tier string) []*Scenario {
 			}
 			out = append(out, c02Fields(ver, push, orders))
 		}
-		out = append(out, c02Batches(push))
+		out = append(out, c02Batches(push), c02Exotic(push))
 		ml := 4
 		if !q {
 			ml = 5
